@@ -491,7 +491,13 @@ def check_property(prop, tier, only, keep, jobs):
                     if d2 is None and data is not None:
                         for o in hungry:
                             undecided.append((o["id"], "memory-hungry run produced no result"))
-                if special and (data is not None or not plain):
+                # rows whose per-loop bounds / CBMC options differ cannot share an invocation (a loop id would get two bounds):
+                # one invocation per distinct (unwindset, cbmc_args) signature
+                special_groups = {}
+                for o in special:
+                    sig = (tuple(tuple(x) for x in (o.get("unwindset") or [])), tuple(o.get("cbmc_args") or []))
+                    special_groups.setdefault(sig, []).append(o)
+                for special in (special_groups.values() if (data is not None or not plain) else []):
                     # two-phase: generate the goto binaries (5 s per harness), look the loop ids up, run with --unwindset
                     run_kani(scratch, c, special, jobs, prebuild=True)
                     us = discover_unwindset(scratch, special)
